@@ -35,6 +35,12 @@ MOLECULES = {
         (['Cl@1C=%0', '%0=C@2CC'], 'chain'),
         (['Cl@1%0', '%0@1C=C@2CC'], 'chain'),
     ]),
+    'chlorooctene': ('CCCC@1C=C@2CCl', [                  # longer chain: the double bond lands on other atom indices with every cut
+        (['C%0', '%0CCC@1C=C@2CCl'], 'chain'),
+        (['CC%0', '%0CC@1C=C@2CCl'], 'chain'),
+        (['CCC%0', '%0C@1C=C@2CCl'], 'chain'),
+        (['CCCC@1C=C@2C%0', '%0Cl'], 'chain'),
+    ]),
     'chiral_centre': ('C[C;x=@x](F)(Cl)N', [
         (['C%0', '%0[C;x=@x](F)(Cl)N'], 'chain'),
         (['C[C;x=@x](%0)(Cl)N', 'F%0'], 'chain'),
@@ -62,7 +68,7 @@ def chirality_signature(moldata):
     return sorted([nodes[n]['chiral'], nodes[n].get('element'), sorted(nb[n])] for n in nodes if 'chiral' in nodes[n])
 
 
-QUICK = ['difluoroethene', 'difluorobutene', 'butene', 'chiral_centre', 'branched_fluorobutene', 'chlorobutene', 'chiral_and_ez']
+QUICK = ['difluoroethene', 'difluorobutene', 'butene', 'chiral_centre', 'branched_fluorobutene', 'chlorobutene', 'chiral_and_ez', 'chlorooctene']
 
 
 def ez_classes(moldata):
